@@ -545,7 +545,71 @@ func checkSemanticValidation(c *Ctx, p *packages.Package) {
 
 // skeleton renders the control skeleton of a mapper: Get indices, asserted types (package-specific node/automaton types
 // abstracted), conditions, error formats, return flags.
+// counterVars: local integers of the mapper under analysis that are only ever set to a constant or counted up: compared with zero
+// they are flags ("was anything unsupported seen?") and are dropped from the skeleton like boolean flags.
+var counterVars = map[types.Object]bool{}
+
+func findCounters(info *types.Info, fd *ast.FuncDecl) map[types.Object]bool {
+	cand := map[types.Object]bool{}
+	bad := map[types.Object]bool{}
+	obj := func(e ast.Expr) types.Object {
+		id, ok := ast.Unparen(e).(*ast.Ident)
+		if !ok {
+			return nil
+		}
+		if o := info.Defs[id]; o != nil {
+			return o
+		}
+		return info.Uses[id]
+	}
+	isInt := func(o types.Object) bool {
+		b, ok := o.Type().Underlying().(*types.Basic)
+		return ok && b.Info()&types.IsInteger != 0
+	}
+	ast.Inspect(fd.Body, func(n ast.Node) bool {
+		switch x := n.(type) {
+		case *ast.IncDecStmt:
+			if o := obj(x.X); o != nil && isInt(o) && x.Tok == token.INC {
+				cand[o] = true
+			} else if o != nil {
+				bad[o] = true
+			}
+		case *ast.AssignStmt:
+			for i, l := range x.Lhs {
+				o := obj(l)
+				if o == nil {
+					continue
+				}
+				if _, isVar := o.(*types.Var); !isVar || !isInt(o) {
+					continue
+				}
+				if i < len(x.Rhs) && len(x.Lhs) == len(x.Rhs) {
+					if tv, ok := info.Types[x.Rhs[i]]; ok && tv.Value != nil && (x.Tok == token.ASSIGN || x.Tok == token.DEFINE || x.Tok == token.ADD_ASSIGN) {
+						continue
+					}
+				}
+				bad[o] = true
+			}
+		case *ast.UnaryExpr:
+			if x.Op == token.AND {
+				if o := obj(x.X); o != nil {
+					bad[o] = true
+				}
+			}
+		}
+		return true
+	})
+	out := map[types.Object]bool{}
+	for o := range cand {
+		if !bad[o] {
+			out[o] = true
+		}
+	}
+	return out
+}
+
 func mapperSkeleton(p *packages.Package, fd *ast.FuncDecl) []string {
+	counterVars = findCounters(p.TypesInfo, fd)
 	info := p.TypesInfo
 	var out []string
 	abstractType := func(t types.Type) string {
@@ -773,19 +837,41 @@ func checkEscapeList(c *Ctx, pp *packages.Package) {
 	// the package-level []rune list
 	var list []rune
 	var listObj types.Object
+	// several lists of characters may exist (the repetition operators, say): the one meant is the one handed to ExcludeRunes
+	lists := map[types.Object][]rune{}
 	pkgVars(pp, func(v *types.Var, init ast.Expr, _ *ast.ValueSpec) {
 		if sl, ok := v.Type().Underlying().(*types.Slice); ok && isRune(sl.Elem()) && init != nil {
 			if cl, ok := init.(*ast.CompositeLit); ok {
-				list = nil
+				var l []rune
 				for _, e := range cl.Elts {
 					if r, ok := constInt(info, e); ok {
-						list = append(list, rune(r))
+						l = append(l, rune(r))
 					}
 				}
-				listObj = v
+				lists[v] = l
+				list, listObj = l, v
 			}
 		}
 	})
+	if len(lists) > 1 {
+		listObj, list = nil, nil
+		for _, f := range pp.Syntax {
+			ast.Inspect(f, func(n ast.Node) bool {
+				call, ok := n.(*ast.CallExpr)
+				if !ok || len(call.Args) != 1 || !call.Ellipsis.IsValid() {
+					return true
+				}
+				if fo, ok := objOf(info, call.Fun).(*types.Func); ok && fo.Name() == "ExcludeRunes" {
+					if id, ok := ast.Unparen(call.Args[0]).(*ast.Ident); ok {
+						if l, known := lists[info.Uses[id]]; known {
+							listObj, list = info.Uses[id], l
+						}
+					}
+				}
+				return true
+			})
+		}
+	}
 	if listObj == nil {
 		c.Lost("R9.3", "the package-level list of characters that must be escaped")
 		return
@@ -922,6 +1008,12 @@ func condAtoms(info *types.Info, e ast.Expr, abstractType func(types.Type) strin
 				out = append(out, "eq("+a+","+b+")")
 				return
 			case token.LSS, token.GTR, token.LEQ, token.GEQ:
+				// a counter compared with zero is a flag
+				if id, ok := ast.Unparen(x.X).(*ast.Ident); ok && counterVars[info.Uses[id]] {
+					if tv, ok := info.Types[x.Y]; ok && tv.Value != nil && tv.Value.String() == "0" {
+						return
+					}
+				}
 				a, b := operand(x.X), operand(x.Y)
 				if a > b {
 					a, b = b, a
